@@ -1331,6 +1331,7 @@ func (sc *serverConn) dispatchHandler(strm *Stream) {
 
 	strm.handlerRunning = true
 	verifDispatched()
+	verifDispatchedCtx(strm.ID(), ctx)
 
 	go func() {
 		defer func() {
